@@ -14,3 +14,8 @@ open GlueVerif.C20
 #print axioms iterateChunks_entry_nmax
 #print axioms iterateChunks_entry_chunkShape
 #print axioms GlueVerif.C20.derived_codes_spec
+#print axioms GlueVerif.C20.unique_layout_independent
+#print axioms GlueVerif.C20.lookupNd_spec
+#print axioms GlueVerif.C20.derivedNd_spec
+#print axioms GlueVerif.C20.unbroadcastNd_roundtrip
+#print axioms GlueVerif.C20.helpers_depend_on_logical_array_only
